@@ -9,7 +9,7 @@
 //!   n       : the new level of op 15
 //!   extra   : () | ( event state )  the candidate event and the room state the harness ran
 //!             `auth_check` on, in C08's encoding (the model rebuilds both and compares)
-//! outcome = ( h ( helper dispatch levels auth built ) )     h = 0 helper says yes (or returns a level)
+//! outcome = ( h ( helper dispatch levels auth built users ) )     h = 0 helper says yes (or returns a level)
 //!                                                            1 helper says no / content does not deserialize
 //!           ( 2 ) a panic on either side
 //!   helper   : () content does not deserialize | ( bool ) | ( level )
@@ -18,6 +18,7 @@
 //!   auth     : () not applicable | ( bool ) verdict of auth_check / of the push condition
 //!              | ( 0 level ) | ( 1 )  for op 7: Ok(level) / Err of state-res' user_power_level
 //!   built    : () | ( 1 )      extra was attached
+//!   users    : () | ( for_user(actor) for_user(target) )
 use std::collections::BTreeMap;
 
 use js_int::{Int, UInt};
@@ -317,10 +318,13 @@ pub fn run_case(c: &Case) -> Sx {
         let Some(auth) = auth_side(&c, pl.as_ref(), &state, ev.as_ref()) else { return Sx::panic() };
         let built = if c.extra { one(Sx::N(1)) } else { none() };
         match &pl {
-            None => Sx::L(vec![Sx::N(1), Sx::L(vec![none(), none(), Sx::L(vec![]), auth, built])]),
+            None => Sx::L(vec![Sx::N(1), Sx::L(vec![none(), none(), Sx::L(vec![]), auth, built, none()])]),
             Some(pl) => {
                 let (yes, h, d, l) = helper_side(&c, pl);
-                Sx::L(vec![Sx::N(if yes { 0 } else { 1 }), Sx::L(vec![h, d, l, auth, built])])
+                let actor = <&UserId>::try_from(c.actor.as_str()).unwrap();
+                let target = <&UserId>::try_from(c.target.as_str()).unwrap();
+                let users = Sx::L(vec![lvl(pl.for_user(actor)), lvl(pl.for_user(target))]);
+                Sx::L(vec![Sx::N(if yes { 0 } else { 1 }), Sx::L(vec![h, d, l, auth, built, users])])
             }
         }
     })
